@@ -1489,9 +1489,14 @@ class Stream(AbstractStream):
         """
         streams = []
         isa = isinstance
+        phase_streams = self._streams.values() if hasattr(self, '_streams') else ()
         for i in others:
             if isa(i, Stream):
-                if not i.isempty(): streams.append(i)
+                if not i.isempty(): 
+                    for j in phase_streams:
+                        # Phase streams share data with self, which is overwritten before being read
+                        if i is j: i = i.copy(); break
+                    streams.append(i)
             elif i: 
                 Q += i.heat # Must be a heat or power object, assume power turns to heat
         N_streams = len(streams)
